@@ -174,6 +174,17 @@ CANARY_w_node_filtered_under_opts
    | (PR(has_benign_infinite_array_change) ? K[I_BENIGN_ARRAY] : 0u))
 #define ADDED(which) ((which) == 0 ? HARMLESS_ADD : HARMFUL_ADD)
 
+#define ANY_HARMLESS_PRED \
+  (DECL_ONLY || PR(access_changed) || PR(is_compatible_change) || PR(has_harmless_name_change) \
+   || PR(class_diff_has_harmless_odr_violation_change) || PR(union_diff_has_harmless_changes) \
+   || PR(has_non_virtual_mem_fn_change) || PR(static_data_member_added_or_removed) \
+   || PR(static_data_member_type_size_changed) || PR(has_data_member_replaced_by_anon_dm) \
+   || PR(has_enumerator_insertion) || PR(has_harmless_enum_to_int_change) \
+   || PR(function_name_changed_but_not_symbol) || PR(has_fn_parm_type_top_cv_qual_change) \
+   || PR(has_fn_parm_type_cv_qual_change) || PR(has_fn_return_type_cv_qual_change) \
+   || PR(has_var_type_cv_qual_change) || PR(has_void_ptr_to_ptr_change) || PR(has_benign_infinite_array_change))
+#define NEWBITS (out[0] & ~cat0)
+
 int w_categorize(int which, int pre, int has_changes, int has_canonical,
                  unsigned cat0, unsigned local0, unsigned ccat0, unsigned clocal0, unsigned *out)
 __CPROVER_requires(which == 0 || which == 1)
@@ -182,17 +193,51 @@ __CPROVER_ensures(__CPROVER_return_value != 0)
 /* nothing happens on unchanged nodes or on the post-order visit */
 __CPROVER_ensures((!has_changes || !pre) ==>
                   (out[0] == cat0 && out[1] == local0 && out[2] == ccat0 && out[3] == clocal0))
-/* otherwise exactly the detected categories are added to the node ... */
-__CPROVER_ensures((has_changes && pre) ==> (out[0] == (cat0 | ADDED(which)) && out[1] == (local0 | ADDED(which))))
-/* ... and to its canonical node, which diff::is_filtered_out consults */
-__CPROVER_ensures((has_changes && pre && has_canonical) ==>
-                  (out[2] == (ccat0 | ADDED(which)) && out[3] == (clocal0 | ADDED(which))))
+/* categories are only ever added, the same ones locally, inherited and on the canonical node
+   (which diff::is_filtered_out consults) */
+__CPROVER_ensures((out[0] & cat0) == cat0 && (out[1] & local0) == local0 && (out[2] & ccat0) == ccat0 && (out[3] & clocal0) == clocal0)
+__CPROVER_ensures((out[0] | local0) == (out[1] | cat0))
+__CPROVER_ensures(has_canonical ==> ((out[2] | cat0) == (out[0] | ccat0) && (out[3] | cat0) == (out[0] | clocal0)))
 __CPROVER_ensures(!has_canonical ==> (out[2] == ccat0 && out[3] == clocal0))
-/* harmless categorization never adds a harmful bit and vice versa (C07 / C05) */
-__CPROVER_ensures(which == 0 ==> (((out[0] ^ cat0) & HARMFUL) == 0))
-__CPROVER_ensures(which == 1 ==> (((out[0] ^ cat0) & HARMLESS) == 0))
+/* harmful categorization: exactly the documented predicate -> category table (C05 needs "=>",
+   C07 needs "<=": a harmless-only change must not be marked harmful) */
+__CPROVER_ensures((which == 1 && has_changes && pre) ==> (out[0] == (cat0 | HARMFUL_ADD)))
+/* harmless categorization: only harmless bits, none without a harmless predicate, and the
+   documented harmless kinds of C07 get their category */
+__CPROVER_ensures(which == 0 ==> ((NEWBITS & ~HARMLESS) == 0))
+__CPROVER_ensures((which == 0 && !ANY_HARMLESS_PRED) ==> NEWBITS == 0)
+__CPROVER_ensures((which == 0 && has_changes && pre && PR(access_changed)) ==> (out[0] & K[I_ACCESS]))
+__CPROVER_ensures((which == 0 && has_changes && pre && PR(is_compatible_change)) ==> (out[0] & K[I_COMPAT]))
+__CPROVER_ensures((which == 0 && has_changes && pre && PR(has_harmless_name_change)) ==> (out[0] & K[I_DECL_NAME]))
+__CPROVER_ensures((which == 0 && has_changes && pre && PR(has_non_virtual_mem_fn_change)) ==> (out[0] & K[I_NON_VIRT]))
+__CPROVER_ensures((which == 0 && has_changes && pre && PR(has_enumerator_insertion) && !PR(has_harmful_enum_change)) ==> (out[0] & K[I_ENUM]))
+__CPROVER_ensures((which == 0 && has_changes && pre && PR(has_fn_parm_type_top_cv_qual_change)) ==> (out[0] & K[I_TOP_CV]))
+__CPROVER_ensures(which == 1 ==> ((NEWBITS & ~HARMFUL) == 0))
 __CPROVER_assigns(__CPROVER_object_whole(out))
 CANARY_w_categorize
+;
+
+/* node-level end-to-end lemma (C05 / C07): categorize a fresh changed node, then filter */
+#define C05_PRED \
+  ((!DECL_ONLY && (PR(type_size_changed) || PR(data_member_offset_changed) \
+                   || PR(non_static_data_member_type_size_changed) \
+                   || PR(non_static_data_member_added_or_removed) || PR(base_classes_added_or_removed) \
+                   || PR(has_harmful_enum_change))) \
+   || PR(has_virtual_mem_fn_change) || PR(has_added_or_removed_function_parameters))
+int w_node_pipeline(int show_harmless, int show_harmful, int show_redundant, int leaf_only, int has_canonical)
+/* C05: a node on which a harmful predicate fires is reported (default options: show_harmful) */
+__CPROVER_ensures((show_harmful && C05_PRED) ==> __CPROVER_return_value == 0)
+/* C05: a changed node on which no predicate fires (e.g. a changed return type) is reported */
+__CPROVER_ensures((!ANY_HARMLESS_PRED && HARMFUL_ADD == 0) ==> __CPROVER_return_value == 0)
+/* C07: a node on which only harmless predicates fire is filtered by default and shown with --harmless */
+__CPROVER_ensures((!show_harmless && HARMFUL_ADD == 0 && ANY_HARMLESS_PRED
+                   && (PR(access_changed) || PR(is_compatible_change) || PR(has_harmless_name_change)
+                       || PR(has_non_virtual_mem_fn_change) || PR(has_fn_parm_type_top_cv_qual_change)
+                       || (PR(has_enumerator_insertion) && !PR(has_harmful_enum_change))))
+                  ==> __CPROVER_return_value != 0)
+__CPROVER_ensures((show_harmless && HARMFUL_ADD == 0) ==> __CPROVER_return_value == 0)
+__CPROVER_assigns(gh_supprs_read)
+CANARY_w_node_pipeline
 ;
 
 /* ------------------------------------------------------------------ harnesses */
@@ -289,4 +334,12 @@ void h_categorize(void)
   unsigned in_cat0 = nondet_unsigned(), in_local0 = nondet_unsigned(), in_ccat0 = nondet_unsigned(),
            in_clocal0 = nondet_unsigned();
   w_categorize(in_which, in_pre, in_has_changes, in_has_canonical, in_cat0, in_local0, in_ccat0, in_clocal0, out);
+}
+void h_node_pipeline(void)
+{
+  load_constants();
+  __CPROVER_havoc_object(gh_pred);
+  int in_show_harmless = nondet_int(), in_show_harmful = nondet_int(), in_show_redundant = nondet_int(),
+      in_leaf_only = nondet_int(), in_has_canonical = nondet_int();
+  w_node_pipeline(in_show_harmless, in_show_harmful, in_show_redundant, in_leaf_only, in_has_canonical);
 }
